@@ -334,3 +334,26 @@ func (r *Run) FailExisting(path, msg string) {
 	r.st.Violations = append(r.st.Violations, Violation{Replay: path, Msg: msg})
 	r.mu.Unlock()
 }
+
+// KnownOpen reports whether the committed known-findings file lists an open
+// (recorded, not repaired) finding with the given id. The file is only read.
+func KnownOpen(id string) bool {
+	data, err := os.ReadFile("/verif/known_findings.json")
+	if err != nil {
+		return false
+	}
+	var k struct {
+		Open []struct {
+			ID string `json:"id"`
+		} `json:"open"`
+	}
+	if json.Unmarshal(data, &k) != nil {
+		return false
+	}
+	for _, o := range k.Open {
+		if o.ID == id {
+			return true
+		}
+	}
+	return false
+}
